@@ -144,7 +144,19 @@ func positions(d *jsontext.Decoder, o *obs) {
 	o.pointer = string(d.StackPointer())
 }
 
+// lastClone holds Token.Clone() of the token returned by the most recent ReadToken of this goroutine's trace.
+type cloneKeeper struct {
+	tok   jsontext.Token
+	text  string
+	kind  byte
+	valid bool
+}
+
 func step(d *jsontext.Decoder, op byte) (o obs, err error) {
+	return stepK(d, op, nil)
+}
+
+func stepK(d *jsontext.Decoder, op byte, keep *cloneKeeper) (o obs, err error) {
 	o.op = op
 	switch op {
 	case 'T':
@@ -153,6 +165,9 @@ func step(d *jsontext.Decoder, op byte) (o obs, err error) {
 		if err == nil {
 			o.kind = byte(t.Kind())
 			o.text = t.String()
+			if keep != nil && (o.kind == '"' || o.kind == '0') {
+				*keep = cloneKeeper{t.Clone(), o.text, o.kind, true}
+			}
 		}
 	case 'V':
 		var v jsontext.Value
@@ -178,9 +193,16 @@ type Case struct {
 	Program   string `json:"program"` // ops; after the program all-ReadToken until EOF/error
 	Sched     Sched  `json:"sched"`
 	AllowDup  bool   `json:"allow_dup"`
-	// Prime > 0: before the run the (reused) decoder has decoded one string of Prime bytes from a plain reader, so
+	// Prime < 0: before the run the decoder has read a stream of small values of -Prime bytes to its end; Prime > 0: before the run the (reused) decoder has decoded one string of Prime bytes from a plain reader, so
 	// that its internal buffer has grown as it would have in a longer-lived decoder; 0 = freshly made decoder
 	Prime int `json:"prime,omitempty"`
+	// Reset family: the Decoder first made ResetAfter ReadToken calls on First (through FirstSched, or a bytes.Buffer),
+	// was then Reset onto Input (through Sched) and must behave like a fresh Decoder
+	First       []byte `json:"first,omitempty"`
+	FirstSched  Sched  `json:"first_sched,omitempty"`
+	FirstBuffer bool   `json:"first_buffer,omitempty"`
+	ResetAfter  int    `json:"reset_after,omitempty"`
+	IsReset     bool   `json:"is_reset,omitempty"`
 }
 
 // maxSteps bounds one execution: the longest documents (8 KiB boundary sweeps of two-byte values) have ~4100 tokens;
@@ -191,13 +213,24 @@ const maxSteps = 1 << 16
 // checkBuf, if non-nil, is called after every call with the bytes taken from the reader so far.
 func trace(dec *jsontext.Decoder, program string, inv func() string, out []obs) ([]obs, string) {
 	out = out[:0]
+	var keep cloneKeeper
 	for i := 0; i < maxSteps; i++ {
 		op := byte('T')
 		if i < len(program) {
 			op = program[i]
 		}
-		o, err := step(dec, op)
+		prev := keep
+		keep.valid = false
+		var kp *cloneKeeper
+		if inv != nil {
+			kp = &keep
+		}
+		o, err := stepK(dec, op, kp)
 		out = append(out, o)
+		// a cloned token stays valid (same kind and text) after the next call has reused the buffer
+		if prev.valid && (byte(prev.tok.Kind()) != prev.kind || prev.tok.String() != prev.text) {
+			return out, fmt.Sprintf("after call %d (%c): the Clone of the previously returned token changed: now %q, was %q", i+1, op, prev.tok.String(), prev.text)
+		}
 		if inv != nil {
 			if m := inv(); m != "" {
 				return out, fmt.Sprintf("after call %d (%c): %s", i+1, op, m)
@@ -416,7 +449,7 @@ func report(r *evid.Run, cs Case, msg string) {
 	// the exploration reuses decoders (Reset), whose internal buffer keeps the capacity reached earlier; find the
 	// decoder history (fresh, or primed to a given size) under which this case fails deterministically
 	if ReplayCase(cs) == "" {
-		for _, p := range []int{40, 100, 200, 400, 800, 1600, 3200, 6400, 12800, 25600, 70000} {
+		for _, p := range []int{-600, -6000, 40, 100, 200, 400, 800, 1600, 3200, 6400, 12800, 25600, 70000} {
 			cs.Prime = p
 			if ReplayCase(cs) != "" {
 				break
@@ -425,11 +458,18 @@ func report(r *evid.Run, cs Case, msg string) {
 		}
 	}
 	key := fmt.Sprintf("c05|%q|%s|%+v|dup=%v", cs.Input, cs.Program, cs.Sched, cs.AllowDup)
+	if cs.IsReset {
+		cs.First = append([]byte(nil), cs.First...)
+		key += fmt.Sprintf("|reset|%d|%.40q|%+v|%v", cs.ResetAfter, cs.First, cs.FirstSched, cs.FirstBuffer)
+	}
 	r.Violation(key, msg, cs, func() bool { return ReplayCase(cs) != "" })
 }
 
 // ReplayCase re-executes one recorded execution twice (determinism guard) and returns the failure message.
 func ReplayCase(cs Case) string {
+	if cs.IsReset {
+		return resetOne(newRunner(), cs)
+	}
 	switch cs.Program {
 	case "UnmarshalRead":
 		return routeUnmarshalRead(cs.Input, cs.Sched)
@@ -446,6 +486,17 @@ func ReplayCase(cs Case) string {
 			x.rd = reader{data: doc}
 			x.dec.Reset(&x.rd)
 			x.dec.ReadValue()
+		}
+		if cs.Prime < 0 {
+			// a stream of many small values read to its end through a plain reader: besides growing the buffer this makes the
+			// decoder discard consumed input (its base offset advances), as in a long-lived decoder
+			x.rd = reader{data: bytes.Repeat([]byte("12345 "), -cs.Prime/6+1)}
+			x.dec.Reset(&x.rd)
+			for {
+				if _, err := x.dec.ReadToken(); err != nil {
+					break
+				}
+			}
 		}
 		base := append([]obs(nil), x.baseline(cs.Input, cs.Program)...)
 		if m := model(cs.Input, cs.Program, base, refjson.Opts{AllowDupNames: cs.AllowDup}); m != "" {
@@ -581,6 +632,7 @@ func (f *docFilter) interesting(b []byte) (ok bool, valid bool) {
 func Run(r *evid.Run) {
 	r.Rule("environment-answer exploration of a real jsontext.Decoder: for every document of the class, every call program (ReadToken/ReadValue/SkipValue/PeekKind; exhaustive up to a length, then <=2 deviations from all-ReadToken) is first run on the whole input (*bytes.Buffer) and checked against the reference decoder model (valid streams), then re-run under every reader schedule of the class (all 2^(n-1) cut sets for short inputs, else <=2 cuts and the one-byte reader; x empty reads x data-with-EOF), comparing every call's token/value/error key/InputOffset/StackDepth/StackIndex/StackPointer and the invariant bytes-taken == InputOffset ++ UnreadBuffer; single transient faults before every Read call with retry; buffer-boundary sweeps around 64..8192; UnmarshalRead/UnmarshalDecode vs Unmarshal. evaluations = executions (document x program x schedule); distinct_nontrivial = distinct (document, program, schedule) executions whose schedule has at least one deviation (cut, empty read, data+EOF or fault)")
 	r.Assume("reference decoder model (internal/refjson/decmodel.go) for valid streams", "a *bytes.Buffer source is 'the whole byte slice'", "error message text is never compared")
+	resetFamily(r)
 	quick := r.Tier != "thorough"
 	// class (a): exhaustive on short documents; class (b): deviation-bounded on longer ones
 	exhLen, exhProg := 5, 4
